@@ -11,10 +11,11 @@ ASSUMPTIONS = [
     "'never written to the data files' is decided by a byte search of the real files after every history (a test, not a theorem)",
     "JWT / HTTP login is not exercised (password changes do go through the HTTP API as well)",
 ]
-USERS = ["alice", "bob", "carol"]
+USERS = ["alice", "bob", "carol", "dora"]
 PWS = ["pw-alpha-1", "pw-beta-22", "pw-gamma-333", "pw-delta-4444"]
 CLIENTS = ["c1", "c2", "c3"]
 T0 = 1_700_000_000_000_000
+WHOAMI = {"g": 2}   # read_servers: get_me is refused as 'unauthorized' (a permission matter, C09) for a user without it
 
 
 def tok(name):
@@ -46,7 +47,7 @@ def gen(rng, tid):
         if k == "create":
             pw = rng.choice(PWS)
             active = rng.random() < 0.85
-            add({"op": "create_user", "user": u, "password": pw, "inactive": not active}, C("XCreateUser", tok(u), pwt(pw), active))
+            add({"op": "create_user", "user": u, "password": pw, "inactive": not active, "perms": WHOAMI}, C("XCreateUser", tok(u), pwt(pw), active))
         elif k == "login":
             name = rng.choice(USERS + ["iggy", "nobody"])
             pw = rng.choice(PWS + ["iggy"])
@@ -87,6 +88,15 @@ def gen(rng, tid):
             add({"op": "restart"}, C("XRestart", clock[0] + 1000))
         else:
             add({"op": "advance", "us": rng.choice([2_000, 10_000, 100_000])}, None)
+    # an administrator changes ANOTHER user's password over the binary protocol; after a restart exactly that user's password has
+    # changed - nobody else's
+    add({"op": "delete_user", "uid": "dora"}, C("XDeleteUser", tok("dora")))
+    add({"op": "create_user", "user": "dora", "password": PWS[0], "inactive": False, "perms": WHOAMI}, C("XCreateUser", tok("dora"), pwt(PWS[0]), True))
+    add({"op": "change_password", "uid": "dora", "current": PWS[0], "new": PWS[1]}, C("XChangePassword", tok("dora"), pwt(PWS[0]), pwt(PWS[1])))
+    add({"op": "restart"}, C("XRestart", clock[0] + 1000))
+    c = rng.choice(CLIENTS)
+    for name, pw in (("dora", PWS[1]), ("dora", PWS[0]), ("iggy", "iggy"), ("iggy", PWS[1])):
+        add({"op": "login", "c": c, "user": name, "password": pw}, C("XLogin", CLIENTS.index(c) + 1, tok(name), pwt(pw)))
     # a token with a finite lifetime, a restart inside it, then a login after the original expiry instant: the lifetime counts from
     # the token's creation, not from the restart
     c = rng.choice(CLIENTS)
